@@ -51,7 +51,7 @@ def run(ctx):
         decode.run_decode(ctx, decode.gen_decode_cases(ctx, k, depth), judge)
         done += k
     # the same stream with every annotation wrapped in Annotated / NewType / TypeAliasType
-    for mode in (True, "newtype", "typealias"):
+    for mode in S.WRAP_MODES:
         if ctx.time_left() > 30:
             decode.run_decode(ctx, decode.gen_decode_cases(ctx, 500 if ctx.tier == "quick" else 6000, depth), judge, annot=mode)
     ctx.assumptions += [
